@@ -132,7 +132,7 @@ def oracle(ctx, job, res, has_thermo):
 
 
 def q_of(x):
-    return g_Q(Fraction(x))
+    return vlib.g_Qf(x)
 
 
 def ev_lit(r):
